@@ -16,6 +16,9 @@ int idf(int q) { return q; }
 LEAF = {"lit": "3", "const": "cc", "mut": "m", "mutelem": "ma[0]", "constelem": "cca[0]", "binder": "k"}
 TV = {"name": "TV", "params": "const int pp", "locations": [{"id": "id0"}], "init": "id0"}
 TC = {"name": "TC", "params": "const int &pp", "locations": [{"id": "id0"}], "init": "id0"}
+# namesakes: another template declares CONSTANTS called like the mutable globals, and VARIABLES called like the constant ones - whether a name is computable is a
+# question about the declaration it is bound to, not about its spelling
+TS = {"name": "TS", "decl": "const int m = 1; const int ma[2] = {1, 1}; int cc = 2; int cca[2] = {1, 2};", "locations": [{"id": "id0"}], "init": "id0"}
 
 
 def render_chain(n, leaf, chain):
@@ -88,7 +91,7 @@ def contexts(E, n, in_t):
 
 
 def mk_placer():
-    return batch.Placer(BASE_DECL, extra_templates=[TV, TC])
+    return batch.Placer(BASE_DECL, extra_templates=[TV, TC, TS])
 
 
 def inst_model(cs):
